@@ -5,6 +5,7 @@ import (
 	"crypto/sha256"
 	"fmt"
 	"math/rand"
+	"os"
 	"runtime"
 	"strings"
 	"sync"
@@ -48,6 +49,14 @@ func init() {
 			return 12 + len(c20HotSets)
 		},
 		Batch: 1,
+		// one process in four is STARTED with a single P (what a one-CPU host or container gives): whatever the code reads
+		// about its environment at start-up must not decide whether it synchronises
+		ChildEnv: func(idx int) []string {
+			if idx%4 == 3 {
+				return []string{"GOMAXPROCS=1"}
+			}
+			return nil
+		},
 		Race:  true,
 		Stall: 10 * time.Minute, // one case is one long stress run: the per-case stall monitor must not cut it
 
@@ -326,6 +335,9 @@ func runC20Hot(c *fw.Case, set []int) (o fw.Outcome) {
 }
 
 func runC20(c *fw.Case) (o fw.Outcome) {
+	if os.Getenv("GOMAXPROCS") == "1" {
+		defer func() { o.Tag("process-started-with-one-P") }()
+	}
 	base := 12
 	if c.Thorough() {
 		base = 96
